@@ -238,6 +238,10 @@ func (p *c18) RunCase(ctx *runner.Ctx) runner.CaseResult {
 			x.r.Counters["histories"]++
 			x.fp(creates >= 2 && puts >= 1, "ex|%s|%s", adapter, strings.Join(names, ","))
 		}
+		if block == 0 {
+			// the life cycle of one table leaves the native callbacks registered for tables with RELATED names alone
+			(&c20{}).prefixNamedTables(x, adapter)
+		}
 		if block%50 == 0 {
 			x.r.Sample = map[string]interface{}{"kind": "exhaustive", "adapter": adapter, "alphabet": c18Alphabet}
 		}
